@@ -427,6 +427,12 @@ func c09RaceLog(r *mon.Run) {
 				}
 			}
 			key := strings.Join(frames, " <-> ")
+			if len(frames) == 0 {
+				// a race between harness goroutines, no jennifer code involved: the monitor is at fault, the
+				// property is not refuted
+				r.Inconclusive("race report without any jennifer frame (harness fault): " + mon.Trunc(blk, 600))
+				continue
+			}
 			if !seen[key] {
 				seen[key] = true
 				r.Violate("data-race", mon.Case{Gen: "race"}, "race detector report (%s):\n%s", key, mon.Trunc(blk, 3000))
